@@ -397,4 +397,6 @@ MUTANTS = [
     Mutant("entry-without-identity-shortcut", ARR, "unyt_array.__array_ufunc__", "if u0 is not u1 and u0 != u1:", "if u0 != u1:", (), benign=True),
     Mutant("unit-eq-absolute-tolerance", UO, "Unit.__eq__", "math.isclose(self.base_value, u.base_value)", "np.isclose(self.base_value, u.base_value)", ("C04-R9",)),
     Mutant("rescale-kind-of-left-operand", ARR, "unyt_array.__array_ufunc__", 'new_dtypekind = "c" if inp1.dtype.kind == "c" else "f"', 'new_dtypekind = "c" if inp0.dtype.kind == "c" else "f"', ("C04-R10",)),
+    Mutant("dot-drops-second-unit", ARR, "unyt_array.dot", 'res_units = self.units * getattr(b, "units", NULL_UNIT)', "res_units = self.units", ("C04-R7",)),
+    Mutant("remainder-unchecked-rule", ARR, None, "        remainder: _preserve_units,", "        remainder: _passthrough_unit,", ("C04-R8",)),
 ]
